@@ -39,8 +39,8 @@ def site_of(ex):
     site = "-"
     while tb is not None:
         fn = tb.tb_frame.f_code.co_filename
-        if fn.startswith("/repo/amoco/"):
-            site = "%s.%s" % (fn[len("/repo/amoco/"):-3].replace("/", "."), tb.tb_frame.f_code.co_name)
+        if fn.startswith(bootstrap.REPO + "/amoco/"):
+            site = "%s.%s" % (fn[len(bootstrap.REPO) + len("/amoco/"):-3].replace("/", "."), tb.tb_frame.f_code.co_name)
         tb = tb.tb_next
     return site
 
